@@ -654,3 +654,258 @@ Proof.
   - destruct H as (E1 & e & He & Er & _). split; [exact E1|]. split; [|exact E].
     apply (Permutation_in _ Hp). rewrite <- Er. apply in_map. exact He.
 Qed.
+
+(* ================================================================ UniqueHash: UpdateRaw(oldRaw, newRaw) accepted *)
+
+Lemma uinv_add_head ct cols e rest :
+  uinv ct (mkU cols rest None None) -> ~ In (etag e) (map etag rest) ->
+  ~ In (keyc ct cols (eraw e)) (map (fun x => keyc ct cols (eraw x)) rest) -> ekey e = keyc ct cols (eraw e) ->
+  uinv ct (mkU cols (e :: rest) None None).
+Proof.
+  intros (Ha & Hr & Ht & Hk & Hs) Htag Hkey Hst. unfold uinv in *. cbn [ucols uents upadd uprem map] in *.
+  repeat split; auto; constructor; assumption.
+Qed.
+
+Lemma uinv_head_facts ct cols e rest :
+  uinv ct (mkU cols (e :: rest) None None) ->
+  ~ In (etag e) (map etag rest) /\ ~ In (keyc ct cols (eraw e)) (map (fun x => keyc ct cols (eraw x)) rest) /\
+  ekey e = keyc ct cols (eraw e).
+Proof.
+  intros (Ha & Hr & Ht & Hk & Hs). cbn [ucols uents upadd uprem map] in *. inversion Ht; inversion Hk; inversion Hs; subst. auto.
+Qed.
+
+Lemma u_find_none_keys R ct u k :
+  (forall s, R s s = true) -> uinv ct u -> u_find R ct u k = None ->
+  ~ In k (map (fun e => keyc ct (ucols u) (eraw e)) (uents u)).
+Proof.
+  intros HR (Ha & Hr & Ht & Hk & Hs) E Hin. rewrite Forall_forall in Hs. apply in_map_iff in Hin as (y & Hy & Hyin).
+  unfold u_find in E. eapply find_none in E; [|exact Hyin]. simpl in E. rewrite (Hs y Hyin), Hy, HR, zlist_eqb_refl in E. discriminate.
+Qed.
+
+Theorem u_update_preserves_cons fixu ord R ct rs rs' u old new tag :
+  (forall s, R s s = true) -> u_cons ct rs u -> ~ In tag (map etag (uents u)) -> ~ In new rs -> In old rs ->
+  Permutation (rs ++ [new]) (old :: rs') ->
+  let '(u1, r) := (let '(u', r) := u_add ord R ct u new (Some old) tag in
+                   (if Z.eqb r new then u_prepare_remove fixu R ct u' old else u', r)) in
+  negb (Z.eqb r new) && negb (Z.eqb r old) = false ->
+  u_cons ct rs' (u_accept_remove (u_accept_add_raw u1 new)).
+Proof.
+  intros HR Hc Htag Hnew Hold Hrs. pose proof Hc as [Hi Hperm]. pose proof Hi as (Ha & Hr & Ht & Hk & Hs).
+  assert (Hon : old <> new) by (intros ->; contradiction).
+  destruct (u_entry_of_row ct rs u old Hc Hold) as (e0 & He0 & Eold).
+  destruct (in_perm_split etag (uents u) e0 Ht He0) as (rest & P & Hne).
+  pose proof (uinv_perm ct u _ Hi P) as Hi0. rewrite Ha, Hr in Hi0.
+  destruct (uinv_head_facts ct (ucols u) e0 rest Hi0) as (Htg0 & Hk0 & Hst0).
+  pose proof (uinv_tail ct (ucols u) e0 rest Hi0) as Hit.
+  assert (Hrows : Permutation (new :: map eraw rest) rs').
+  { apply Permutation_cons_inv with (a := old). etransitivity; [|exact Hrs].
+    etransitivity; [apply perm_swap|]. etransitivity; [apply Permutation_cons_append|]. apply Permutation_app_tail.
+    etransitivity; [|exact Hperm]. rewrite <- Eold. change (eraw e0 :: map eraw rest) with (map eraw (e0 :: rest)).
+    apply Permutation_map. symmetry. exact P. }
+  unfold u_add. set (k := keyc ct (ucols u) new).
+  destruct (u_find R ct u k) as [e|] eqn:Ef.
+  - unfold u_find in Ef. apply find_some in Ef as [Hin Hp]. apply andb_true_iff in Hp as [_ Hp]. apply zlist_eqb_eq in Hp.
+    destruct (Z.eqb_spec (eraw e) old) as [Ee|Ee].
+    + (* same key: the position is re-pointed to the new row *)
+      assert (e = e0) by (eapply NoDup_map_inj; [exact Hk|exact Hin|exact He0|]; simpl; rewrite Ee, Eold; reflexivity). subst e.
+      rewrite Ee. replace (Z.eqb old new) with false by (symmetry; apply Z.eqb_neq; exact Hon). intros _.
+      unfold u_accept_add_raw, u_accept_remove. cbn [upadd uents ucols uprem]. rewrite Hr.
+      set (h := fun x => if Nat.eqb (etag x) (etag e0) then mkE (etag x) new (ekey x) else x).
+      assert (Ph : Permutation (map h (uents u)) (h e0 :: rest)).
+      { etransitivity; [apply Permutation_map; exact P|]. simpl. apply perm_skip. rewrite map_id_on; [reflexivity|].
+        intros x Hx. unfold h. replace (Nat.eqb (etag x) (etag e0)) with false by (symmetry; apply Nat.eqb_neq; apply Hne; exact Hx). reflexivity. }
+      assert (Eh : h e0 = mkE (etag e0) new (ekey e0)) by (unfold h; rewrite Nat.eqb_refl; reflexivity).
+      eapply u_cons_of_parts with (cols := ucols u) (L := h e0 :: rest); [reflexivity|reflexivity|reflexivity|exact Ph| |].
+      * rewrite Eh. apply (uinv_add_head ct (ucols u) _ rest Hit); cbn [etag eraw ekey]; auto.
+        -- fold k. rewrite <- Hp. exact Hk0.
+        -- fold k. rewrite <- Hp. exact Hst0.
+      * rewrite Eh. cbn [map eraw]. exact Hrows.
+    + (* another row has the key: refused *)
+      assert (Hers : In (eraw e) rs) by (apply (Permutation_in _ Hperm); apply in_map; exact Hin).
+      assert (Een : eraw e <> new) by (intros E; rewrite E in Hers; contradiction).
+      replace (Z.eqb (eraw e) new) with false by (symmetry; apply Z.eqb_neq; exact Een).
+      cbn [negb andb]. replace (Z.eqb (eraw e) old) with false by (symmetry; apply Z.eqb_neq; exact Ee). discriminate.
+  - rewrite Z.eqb_refl. intros _.
+    pose proof (u_find_none_keys R ct u k HR Hi Ef) as Hnone.
+    set (en := mkE tag new k).
+    set (es1 := place ord tag en (uents u)).
+    assert (Pes1 : Permutation es1 (e0 :: en :: rest)).
+    { etransitivity; [apply place_perm|]. etransitivity; [apply perm_skip; exact P|apply perm_swap]. }
+    assert (Hkold : keyc ct (ucols u) old <> k).
+    { intros E. apply Hnone. rewrite <- E, <- Eold. apply in_map_iff. exists e0. split; [reflexivity|exact He0]. }
+    assert (Hprep : u_prepare_remove fixu R ct (mkU (ucols u) es1 (Some tag) (uprem u)) old
+                    = mkU (ucols u) es1 (Some tag) (Some (etag e0))).
+    { unfold u_prepare_remove, u_find. cbn [ucols uents upadd uprem].
+      rewrite (find_unique_match _ es1 e0).
+      - replace (opt_nat_eqb (Some tag) (etag e0)) with false; [rewrite andb_false_r; reflexivity|].
+        symmetry. cbn [opt_nat_eqb]. apply Nat.eqb_neq. intros E. apply Htag. rewrite E. apply in_map. exact He0.
+      - apply (Permutation_in _ (Permutation_sym Pes1)). left. reflexivity.
+      - rewrite Hst0, Eold, HR, zlist_eqb_refl. reflexivity.
+      - intros y Hy Hpy. apply andb_true_iff in Hpy as [_ Hpy]. apply zlist_eqb_eq in Hpy.
+        apply (Permutation_in _ (place_perm ord tag en (uents u))) in Hy. destruct Hy as [<-|Hy].
+        + exfalso. cbn [en eraw] in Hpy. apply Hkold. symmetry. exact Hpy.
+        + eapply NoDup_map_inj; [exact Hk|exact Hy|exact He0|]. simpl. rewrite Hpy, Eold. reflexivity. }
+    rewrite Hprep. unfold u_accept_add_raw, u_accept_remove. cbn [upadd uents ucols uprem].
+    set (h := fun x => if Nat.eqb (etag x) tag then mkE (etag x) new (ekey x) else x).
+    assert (Eh : map h es1 = es1).
+    { apply map_id_on. intros x Hx. unfold h. apply (Permutation_in _ (place_perm ord tag en (uents u))) in Hx.
+      destruct Hx as [<-|Hx]; [cbn [en etag ekey]; rewrite Nat.eqb_refl; reflexivity|].
+      replace (Nat.eqb (etag x) tag) with false; [reflexivity|]. symmetry. apply Nat.eqb_neq. intros E. apply Htag. rewrite <- E. apply in_map. exact Hx. }
+    rewrite Eh.
+    assert (P2 : Permutation (u_remove_tag (etag e0) es1) (en :: rest)).
+    { unfold u_remove_tag. etransitivity; [apply filter_perm; exact Pes1|]. simpl. rewrite Nat.eqb_refl. cbn [negb].
+      replace (Nat.eqb tag (etag e0)) with false.
+      - cbn [negb]. apply perm_skip. apply Permutation_refl'. apply filter_all. intros x Hx. apply negb_true_iff, Nat.eqb_neq. apply Hne. exact Hx.
+      - symmetry. apply Nat.eqb_neq. intros E. apply Htag. rewrite E. apply in_map. exact He0. }
+    eapply u_cons_of_parts with (cols := ucols u) (L := en :: rest); [reflexivity|reflexivity|reflexivity|exact P2| |].
+    + apply (uinv_add_head ct (ucols u) en rest Hit); cbn [en etag eraw ekey].
+      * intros H. apply Htag. apply (Permutation_in _ (Permutation_sym (Permutation_map etag P))). right. exact H.
+      * fold k. intros H. apply Hnone.
+        apply (Permutation_in _ (Permutation_sym (Permutation_map (fun x => keyc ct (ucols u) (eraw x)) P))). right. exact H.
+      * reflexivity.
+    + cbn [map en eraw]. exact Hrows.
+Qed.
+
+(* ================================================================ FilterRaws: each group keeps exactly the kept rows *)
+
+Lemma swap_remove_split (a : list Z) x b :
+  swap_remove (length a) (a ++ x :: b) = a ++ match b with [] => [] | _ => last b x :: removelast b end.
+Proof.
+  unfold swap_remove, remove_unordered. destruct b as [|y b'] using rev_ind.
+  - rewrite rev_unit. rewrite app_length. change (length [x]) with 1.
+    replace (Nat.eqb (S (length a)) (length a + 1)) with true by (symmetry; apply Nat.eqb_eq; lia).
+    rewrite removelast_last, app_nil_r. reflexivity.
+  - clear IHb'. replace (a ++ x :: b' ++ [y]) with ((a ++ x :: b') ++ [y]) by (rewrite <- app_assoc; reflexivity).
+    rewrite rev_unit. rewrite (app_length (a ++ x :: b') [y]), (app_length a (x :: b')). change (length [y]) with 1. change (length (x :: b')) with (S (length b')).
+    replace (Nat.eqb (S (length a)) (length a + S (length b') + 1)) with false by (symmetry; apply Nat.eqb_neq; lia).
+    rewrite set_nth_app_l by (rewrite app_length; change (length (x :: b')) with (S (length b')); lia). rewrite removelast_last.
+    assert (E : set_nth (length a) y (a ++ x :: b') = a ++ y :: b').
+    { clear. induction a as [|z a IH]; simpl; [reflexivity|]. rewrite IH. reflexivity. }
+    rewrite E. f_equal. destruct (b' ++ [y]) eqn:Eb; [destruct b'; discriminate|]. rewrite <- Eb.
+    rewrite last_last, removelast_last. reflexivity.
+Qed.
+
+Lemma split_at {A} (l : list A) i d : i < length l -> l = firstn i l ++ nth i l d :: skipn (S i) l /\ length (firstn i l) = i.
+Proof.
+  revert i; induction l as [|x l IH]; intros i H; simpl in H; [lia|]. destruct i; simpl; [auto|].
+  destruct (IH i ltac:(lia)) as [E L]. split; [f_equal; exact E|f_equal; exact L].
+Qed.
+
+Lemma filter_scan_perm keep : forall fuel i vals,
+  length vals - i < fuel ->
+  Permutation (filter_scan fuel keep i vals) (firstn i vals ++ filter keep (skipn i vals)).
+Proof.
+  induction fuel as [|f IH]; intros i vals Hf; [lia|]. cbn [filter_scan].
+  destruct (Nat.ltb_spec i (length vals)) as [Hi|Hi].
+  - destruct (split_at vals i 0%Z Hi) as [E La]. set (a := firstn i vals) in *. set (x := nth i vals 0%Z) in *. set (b := skipn (S i) vals) in *.
+    assert (Esk : skipn i vals = x :: b).
+    { rewrite E at 1. rewrite <- La at 1. rewrite skipn_app, Nat.sub_diag, skipn_all. reflexivity. }
+    assert (Ef : firstn (S i) vals = a ++ [x]).
+    { rewrite E at 1. rewrite <- La at 1. replace (S (length a)) with (length a + 1) by lia. rewrite firstn_app_2. reflexivity. }
+    assert (Esw : swap_remove i vals = a ++ match b with [] => [] | _ => last b x :: removelast b end).
+    { rewrite E at 1. rewrite <- La at 1. apply swap_remove_split. }
+    assert (Hlen : length vals = i + S (length b)) by (rewrite E, app_length, La; reflexivity).
+    fold b in IH |- *. rewrite Esk. cbn [filter].
+    destruct (keep x) eqn:Ek.
+    + etransitivity; [apply IH; lia|]. rewrite Ef. fold b. rewrite <- app_assoc. reflexivity.
+    + set (tl := match b with [] => [] | _ => last b x :: removelast b end) in *.
+      assert (Htl : Permutation tl b).
+      { unfold tl. destruct b as [|y b']; [reflexivity|].
+        rewrite (app_removelast_last x (l := y :: b')) at 3 by discriminate. apply Permutation_cons_append. }
+      etransitivity; [apply IH; rewrite Esw, app_length, La, (Permutation_length Htl); lia|].
+      rewrite Esw. clearbody a x b tl.
+      assert (F1 : firstn i (a ++ tl) = a) by (rewrite <- La; rewrite firstn_app, Nat.sub_diag, firstn_all; simpl; apply app_nil_r).
+      assert (F2 : skipn i (a ++ tl) = tl) by (rewrite <- La; rewrite skipn_app, Nat.sub_diag, skipn_all; reflexivity).
+      rewrite F1, F2. apply Permutation_app_head. apply filter_perm. exact Htl.
+  - rewrite firstn_all2 by lia. rewrite skipn_all2 by lia. simpl. rewrite app_nil_r. reflexivity.
+Qed.
+
+Lemma filter_vals_perm keep vals : length vals < max_vals -> Permutation (filter_vals keep vals) (filter keep vals).
+Proof.
+  intros H. destruct (filter_vals_ok keep vals H) as (_ & _ & P). etransitivity; [exact P|].
+  apply (filter_scan_perm keep (S (length vals)) 0 vals). lia.
+Qed.
+
+(* one key of the multi hash after FilterRaws *)
+Lemma filter_group_spec keep g :
+  length (gvals g) < max_vals ->
+  match filter_group keep (gkey g) (gvals g) with
+  | None => filter keep (rows_of g) = []
+  | Some (k, vs) => vals_ok vs /\ Permutation (k :: vs) (filter keep (rows_of g))
+  end.
+Proof.
+  intros Hl. unfold filter_group, rows_of. destruct (filter_vals_ok keep (gvals g) Hl) as (Hok & _ & _).
+  pose proof (filter_vals_perm keep (gvals g) Hl) as P. set (v := filter_vals keep (gvals g)) in *. simpl.
+  destruct (keep (gkey g)).
+  - split; [exact Hok|apply perm_skip; exact P].
+  - destruct v as [|y v'] eqn:Ev.
+    + apply Permutation_nil in P. exact P.
+    + split; [apply segs_ok_removelast; exact Hok|].
+      etransitivity; [|exact P]. rewrite (app_removelast_last 0%Z (l := y :: v')) at 3 by discriminate.
+      apply Permutation_cons_append.
+Qed.
+
+Lemma NoDup_filter {A} (f : A -> bool) l : NoDup l -> NoDup (filter f l).
+Proof.
+  induction 1; simpl; [constructor|]. destruct (f x); [constructor; [|assumption]|assumption].
+  intros Hin. apply filter_In in Hin as [Hin _]. contradiction.
+Qed.
+
+Theorem m_filter_preserves_cons ct rs keep m :
+  m_cons ct rs m -> (forall g, In g (mgroups m) -> length (gvals g) < max_vals) ->
+  m_cons ct (filter keep rs) (m_filter keep m).
+Proof.
+  intros [Hi Hperm] Hsmall. destruct (mi_clean ct m Hi) as [Ha Hr].
+  set (F := fun g => match filter_group keep (gkey g) (gvals g) with Some (k, vs) => [mkG (gtag g) k (gskey g) vs] | None => [] end).
+  assert (Hchar : forall gs, (forall g, In g gs -> length (gvals g) < max_vals) ->
+     Permutation (allrows (flat_map F gs)) (filter keep (allrows gs)) /\
+     (forall g', In g' (flat_map F gs) -> exists g, In g gs /\ gtag g' = gtag g /\ gskey g' = gskey g /\ vals_ok (gvals g') /\
+                                                    (forall r, In r (rows_of g') -> In r (rows_of g))) /\
+     (forall (f : mgroup -> nat), True)).
+  { induction gs as [|g gs IH]; intros Hs; [split; [reflexivity|split; [intros ? []|trivial]]|].
+    destruct (IH (fun x Hx => Hs x (or_intror Hx))) as (IH1 & IH2 & _).
+    pose proof (filter_group_spec keep g (Hs g (or_introl eq_refl))) as Hg.
+    cbn [flat_map]. unfold F at 1 3. destruct (filter_group keep (gkey g) (gvals g)) as [[k vs]|].
+    - destruct Hg as [Hok Pg]. split; [|split; [|trivial]].
+      + cbn [app]. rewrite !allrows_cons, filter_app. apply Permutation_app; [exact Pg|exact IH1].
+      + intros g' [<-|Hg']; [|destruct (IH2 g' Hg') as (x & Hx & H); exists x; split; [right; exact Hx|exact H]].
+        exists g. split; [left; reflexivity|]. cbn [gtag gskey gvals]. repeat split; auto.
+        intros r Hrr. apply (Permutation_in _ Pg) in Hrr. apply filter_In in Hrr as [Hrr _]. exact Hrr.
+    - split; [|split; [|trivial]].
+      + cbn [app]. rewrite allrows_cons, filter_app, Hg. exact IH1.
+      + intros g' Hg'. destruct (IH2 g' Hg') as (x & Hx & H). exists x. split; [right; exact Hx|exact H]. }
+  assert (Hnd : forall (A : Type) (f : mgroup -> A), (forall g k vs, f (mkG (gtag g) k (gskey g) vs) = f g) ->
+                forall gs, NoDup (map f gs) -> NoDup (map f (flat_map F gs))).
+  { intros A f Hf gs. induction gs as [|g gs IH]; intros Hn; [constructor|]. cbn [flat_map map] in *. inversion Hn; subst.
+    unfold F at 1. destruct (filter_group keep (gkey g) (gvals g)) as [[k vs]|]; cbn [app map]; [|apply IH; assumption].
+    constructor; [|apply IH; assumption]. rewrite Hf. intros Hin. apply H1.
+    apply in_map_iff in Hin as (g' & E & Hg'). apply in_flat_map in Hg' as (x & Hx & Hg'). unfold F in Hg'.
+    destruct (filter_group keep (gkey x) (gvals x)) as [[k2 vs2]|]; [|contradiction]. destruct Hg' as [<-|[]].
+    rewrite Hf in E. rewrite <- E. apply in_map. exact Hx. }
+  destruct (Hchar (mgroups m) Hsmall) as (P1 & H2 & _).
+  unfold m_filter. fold F. split.
+  - constructor; cbn [mcols mgroups mpadd mprem].
+    + split; assumption.
+    + apply (Hnd nat gtag); [reflexivity|exact (mi_tags ct m Hi)].
+    + eapply Permutation_NoDup; [symmetry; exact P1|]. apply NoDup_filter. exact (mi_rows ct m Hi).
+    + intros g' r Hg' Hrr. destruct (H2 g' Hg') as (g & Hg & _ & Es & _ & Hsub). rewrite Es. apply (mi_keys ct m Hi g r Hg). apply Hsub. exact Hrr.
+    + apply (Hnd (list Z) gskey); [reflexivity|exact (mi_skeys ct m Hi)].
+    + intros g' Hg'. destruct (H2 g' Hg') as (g & _ & _ & _ & Hok & _). exact Hok.
+  - cbn [mgroups]. etransitivity; [exact P1|]. apply filter_perm. exact Hperm.
+Qed.
+
+Theorem u_filter_preserves_cons ct rs keep u : u_cons ct rs u -> u_cons ct (filter keep rs) (u_filter keep u).
+Proof.
+  intros [(Ha & Hr & Ht & Hk & Hs) Hperm]. unfold u_filter. split.
+  - unfold uinv. cbn [ucols uents upadd uprem]. repeat split; auto.
+    + clear -Ht. induction (uents u) as [|e es IH]; simpl in *; [constructor|]. inversion Ht; subst.
+      destruct (keep (eraw e)); simpl; [constructor; [|apply IH; assumption]|apply IH; assumption].
+      intros Hin. apply H1. apply in_map_iff in Hin as (y & Ey & Hy). apply filter_In in Hy as [Hy _]. rewrite <- Ey. apply in_map. exact Hy.
+    + clear -Hk. induction (uents u) as [|e es IH]; simpl in *; [constructor|]. inversion Hk; subst.
+      destruct (keep (eraw e)); simpl; [constructor; [|apply IH; assumption]|apply IH; assumption].
+      intros Hin. apply H1. apply in_map_iff in Hin as (y & Ey & Hy). apply filter_In in Hy as [Hy _]. rewrite <- Ey.
+      apply in_map_iff. exists y. split; [reflexivity|exact Hy].
+    + rewrite Forall_forall in *. intros e He. apply filter_In in He as [He _]. apply Hs. exact He.
+  - cbn [uents]. etransitivity; [|apply filter_perm; exact Hperm].
+    apply Permutation_refl'. clear. induction (uents u) as [|e es IH]; simpl; [reflexivity|]. destruct (keep (eraw e)); simpl; rewrite IH; reflexivity.
+Qed.
